@@ -758,6 +758,17 @@ func (r *Replica) Restore(ctx context.Context, opt RestoreOptions) (err error) {
 		return err
 	}
 
+	// In follow mode, persist the TXID sidecar before the database becomes
+	// visible under its final name. If the process dies between the rename
+	// below and the sidecar write further down, a restart finds a database
+	// without a sidecar and refuses to resume until it is deleted by hand; a
+	// sidecar without a database is simply overwritten by the next restore.
+	if opt.Follow {
+		if err := WriteTXIDFile(opt.OutputPath, infos[len(infos)-1].MaxTXID); err != nil {
+			return fmt.Errorf("write initial txid file: %w", err)
+		}
+	}
+
 	// Copy file to final location.
 	r.Logger().Debug("renaming database from temporary location")
 	if err := os.Rename(tmpOutputPath, opt.OutputPath); err != nil {
